@@ -481,6 +481,11 @@ func (t *SymbolTable) GetOpt(s Strings) grammar.NonTerminal {
 
 	e, ok := t.strings.table.Get(s)
 	if ok {
+		// The entry may have been created for the same strings by another operator.
+		if e.Opt == "" {
+			e.Opt = t.mapStringToNoneTerminal(s, "opt")
+		}
+
 		return e.Opt
 	}
 
@@ -500,6 +505,11 @@ func (t *SymbolTable) GetGroup(s Strings) grammar.NonTerminal {
 
 	e, ok := t.strings.table.Get(s)
 	if ok {
+		// The entry may have been created for the same strings by another operator.
+		if e.Group == "" {
+			e.Group = t.mapStringToNoneTerminal(s, "group")
+		}
+
 		return e.Group
 	}
 
@@ -519,6 +529,11 @@ func (t *SymbolTable) GetStar(s Strings) grammar.NonTerminal {
 
 	e, ok := t.strings.table.Get(s)
 	if ok {
+		// The entry may have been created for the same strings by another operator.
+		if e.Star == "" {
+			e.Star = t.mapStringToNoneTerminal(s, "star")
+		}
+
 		return e.Star
 	}
 
@@ -538,6 +553,11 @@ func (t *SymbolTable) GetPlus(s Strings) grammar.NonTerminal {
 
 	e, ok := t.strings.table.Get(s)
 	if ok {
+		// The entry may have been created for the same strings by another operator.
+		if e.Plus == "" {
+			e.Plus = t.mapStringToNoneTerminal(s, "plus")
+		}
+
 		return e.Plus
 	}
 
